@@ -79,6 +79,13 @@ const uint8_t base64de[] = {
      49,  50,  51, 255, 255, 255, 255, 255
 };
 
+//! 查表前先检查范围，非ASCII字符(>=0x80)一律视为非法字符
+inline uint8_t DecodeChar(char c)
+{
+    uint8_t index = static_cast<uint8_t>(c);
+    return (index < sizeof(base64de)) ? base64de[index] : 255;
+}
+
 }
 
 size_t DecodeLength(const char *base64_ptr, size_t base64_size)
@@ -229,7 +236,7 @@ size_t Decode(const char *base64_ptr, size_t base64_len, void *raw_data_ptr, siz
         if (c == BASE64_PAD)
             break;
 
-        uint8_t v = base64de[int(c)];
+        uint8_t v = DecodeChar(c);
         if (v == 255)
             return 0;
 
@@ -274,7 +281,7 @@ size_t Decode(const std::string &base64_str, std::vector<uint8_t> &raw_data)
         if (c == BASE64_PAD)
             break;
 
-        uint8_t v = base64de[int(c)];
+        uint8_t v = DecodeChar(c);
         if (v == 255)
             return 0;
 
